@@ -1,14 +1,17 @@
 (* C16 — QoS 1/2 delivery to clients survives datagram loss.
    Statement only; proofs in Gateway/Sound_C16.v (gateway) and Client/Sound_Client.v (client).
    PARTIAL: the safety clauses are proved of the component models; the liveness clause (delivery
-   and acknowledgement within the retry budget over a lossy link) is a statement about the composed
-   system (System/Compose.v) that is NOT proved - it is checked on the real client + real gateway
-   by the end-to-end monitor (Checkers/ChkE2E.v clauses (16,4)-(16,6)) on generated fault lists. *)
+   and acknowledgement within the retry budget over a lossy link) is proved of the composed system
+   (System/ComposeLoss.v) for QoS 1 messages on subscribed short topics under any pattern of lost
+   PUBLISHes / PUBACKs within the budget; QoS 2, the REGISTER step and duplication faults are NOT
+   proved - they are checked on the real client + real gateway by the end-to-end monitor
+   (Checkers/ChkE2E.v clauses (16,4)-(16,6)) on generated fault lists. *)
 From stdpp Require Import base option list numbers fin_maps nmap.
 From Verif.Base Require Import Bytes.
 From Verif.Codec Require Import Packets Decode Encode.
 From Verif.Gateway Require Import GwTypes GwStep GwWf GwRun Sound_C16 Sound_C16b.
 From Verif.Client Require Import ClTypes ClStep Sound_Client.
+From Verif.System Require Import Compose ComposeProofs ComposeProofs2_aux ComposeProofs2 ComposeLoss.
 From Verif.Checkers Require Import ChkCodec ChkGw ChkGw5 ChkCl.
 Open Scope N_scope.
 
@@ -47,6 +50,30 @@ Theorem C16_gateway_relays_every_step :
     run_all cfg (fun s ev => chk_C16 cfg s ev (obs_of_outs (snd (gw_step cfg s ev))) = []) (init_state cfg) evs.
 Proof. exact chk_C16_history. Qed.
 Print Assumptions C16_gateway_relays_every_step.
+
+(* Liveness in the composed system (client model + link with fault lists + gateway model + specification
+   broker), for a broker QoS 1 message on a subscribed short topic, from ANY connected quiescent state with
+   subscriptions in place (QuietS): let the rounds b0 :: rs say, transmission by transmission, what the link
+   loses - true: the gateway's PUBLISH, false: the client's PUBACK (faults_ok ties them to the fault lists at
+   the link's counters) - at most RetryCount of them, then a round that gets through.  Then the message is
+   delivered (at least once: once per PUBLISH that arrived, i.e. 1 + the number of lost PUBACKs handler
+   invocations, the repetitions marked DUP), the broker receives exactly one PUBACK, no API call is
+   disturbed, and the system is quiescent again.  (ComposeLoss.retry_budget_tight: with RetryCount + 1
+   losses in a row the message is never delivered - the bound is sharp.) *)
+Theorem C16_qos1_delivered_within_the_retry_budget :
+  forall cfg y subs s dup retain mid payload b0 rs d,
+    QuietS cfg y subs -> In s subs -> 1 <= mid < 65536 -> okb payload = true ->
+    0 < retry_delay (e_gw cfg) -> N.of_nat (length (b0 :: rs)) <= retry_count (e_gw cfg) -> N.of_nat (length rs) < 99998 ->
+    faults_ok cfg (b0 :: rs) (y_c2g_k y) (y_g2c_k y) ->
+    N.of_nat (length (b0 :: rs)) * retry_delay (e_gw cfg) <= d ->
+    exists y1 tr1 y2 tr2,
+      sys_step cfg y (SBpub (MqPublish dup 1 retain (sub_topic s) mid payload)) = (y1, tr1) /\
+      sys_step cfg y1 (SAdv d) = (y2, tr2) /\
+      cbs_of (tr1 ++ tr2) = repeat (sub_id s, sub_topic s, payload) (S (count_false (b0 :: rs))) /\
+      brs_of (tr1 ++ tr2) = [MqPuback mid] /\ rets_of (tr1 ++ tr2) = [] /\
+      QuietS cfg y2 subs.
+Proof. exact e2e_bpub_q1_lossy_counts. Qed.
+Print Assumptions C16_qos1_delivered_within_the_retry_budget.
 
 (* Client side (shared with C17): for every behaviour of gateway and link, a PUBREL - also a
    retransmitted one for an exchange the client already finished - is answered with exactly one
